@@ -38,12 +38,17 @@ class ToolError(Exception):
 
 
 def sh(cmd, timeout=600, cwd=None, env=None, input=None):
+    """Run a command.  coreutils `timeout` is the primary enforcer, so that a child cannot outlive its limit even if this
+    process is killed; the subprocess timeout is only a backstop."""
     e = dict(os.environ)
     if env:
         e.update(env)
+    t0 = time.time()
     try:
-        p = subprocess.run(cmd, cwd=cwd, env=e, input=input, stdout=subprocess.PIPE,
-                           stderr=subprocess.STDOUT, timeout=timeout, text=True, errors="replace")
+        p = subprocess.run(["timeout", "-k", "10", str(int(timeout))] + list(cmd), cwd=cwd, env=e, input=input, stdout=subprocess.PIPE,
+                           stderr=subprocess.STDOUT, timeout=timeout + 90, text=True, errors="replace")
+        if p.returncode in (124, 137) and time.time() - t0 >= timeout - 1:
+            return 124, (p.stdout or "") + "\n[TIMEOUT]"
         return p.returncode, p.stdout
     except subprocess.TimeoutExpired as ex:
         out = ex.stdout or ""
